@@ -381,6 +381,42 @@ pub fn run(run: &mut Run) -> Finish {
         l.case(text.chars().any(|c| c == 'é' || c == '𝒜' || c == '→'), h64(&(3u8, menu.len())));
     });
 
+    // slice 4: long texts (anything the index does per batch of lines is crossed): 63..130 lines with
+    // cycling terminators, a few request orders that index everything in one call or piecemeal
+    let long_ns = [63usize, 64, 65, 66, 129, 130];
+    run.par_slice("long texts: 63/64/65/66/129/130 lines with terminators cycling through \\n, \\r\\n, \\r (with and without a final terminator), 8 request orders (late line first, count first, piecemeal, iterator, slices, clones), both constructors", 4, long_ns.len() as u64 * 2 * 8, |idx, l| {
+        let k = idx & ((1 << 40) - 1);
+        let d = mixed_radix(k, &[8, 2, long_ns.len() as u64]);
+        let n = long_ns[d[2] as usize];
+        let mut text = String::new();
+        for i in 0..n {
+            text.push_str(&format!("l{i}é"));
+            if i + 1 < n || d[1] == 1 {
+                text.push_str(["\n", "\r\n", "\r"][i % 3]);
+            }
+        }
+        let last = (rlines(&text).len() - 1) as u32;
+        let orders: [Vec<Op>; 8] = [
+            vec![Op::Get(last), Op::Get(0), Op::Count],
+            vec![Op::Count, Op::Get(last), Op::Get(last + 1)],
+            vec![Op::Get(1), Op::Get(63), Op::Get(64), Op::Get(65), Op::Get(last), Op::Lines],
+            vec![Op::Lines, Op::Count],
+            vec![Op::Slice(last, 1, 2), Op::Slice(64, 0, 3), Op::Count],
+            vec![Op::CloneGet(last), Op::Get(70.min(last)), Op::CloneCount, Op::Lines],
+            vec![Op::Get(last + 5), Op::Get(last), Op::Count],
+            vec![Op::Get(62), Op::CloneGet(64), Op::Get(last), Op::Count],
+        ];
+        for ctor in 0..CTORS.len() {
+            if let Some(mut v) = replay_history(&text, ctor, &orders[d[0] as usize]) {
+                v.sig = format!("{}/long-text", v.sig);
+                l.violation_sub(idx, ctor as u64, v);
+            }
+            l.traces += 1;
+            l.transitions += orders[d[0] as usize].len() as u64;
+        }
+        l.case(true, h64(&(4u8, n, d[0], d[1])));
+    });
+
     let ff = fix_fail.load(std::sync::atomic::Ordering::Relaxed);
     if ff > 0 {
         run.exhaustive = false;
@@ -401,5 +437,14 @@ pub fn run(run: &mut Run) -> Finish {
 pub fn recheck(case: &Value) -> Vec<Viol> {
     let Some(text) = case["text"].as_str() else { return vec![] };
     let Ok(ops) = serde_json::from_value::<Vec<Op>>(case["ops"].clone()) else { return vec![] };
-    replay_history(text, case["ctor"].as_u64().unwrap_or(0) as usize, &ops).into_iter().collect()
+    let long = rlines(text).len() > 40;
+    replay_history(text, case["ctor"].as_u64().unwrap_or(0) as usize, &ops)
+        .map(|mut v| {
+            if long {
+                v.sig = format!("{}/long-text", v.sig);
+            }
+            v
+        })
+        .into_iter()
+        .collect()
 }
